@@ -298,9 +298,9 @@ func (self *Assembler) epilogue() {
 	self.Mark(len(self.p))
 	self.Emit("XORL", _ET, _ET)
 	self.Emit("XORL", _EP, _EP)
-	self.Link(_LB_error)
 	self.Emit("MOVQ", _ARG_rb, _CX)               // MOVQ rb<>+0(FP), CX
 	self.Emit("MOVQ", _RL, jit.Ptr(_CX, 8))       // MOVQ RL, 8(CX)
+	self.Link(_LB_error)
 	self.Emit("MOVQ", jit.Imm(0), _ARG_rb)        // MOVQ AX, rb<>+0(FP)
 	self.Emit("MOVQ", jit.Imm(0), _ARG_vp)        // MOVQ BX, vp<>+8(FP)
 	self.Emit("MOVQ", jit.Imm(0), _ARG_sb)        // MOVQ CX, sb<>+16(FP)
